@@ -156,10 +156,16 @@ func verifyHashRuleSliceInfos(locations []int, slices []string) (map[int]int, er
 		return nil, errors.ErrLocationsCount
 	}
 	for i := 0; i < len(locations); i++ {
+		if locations[i] < 0 {
+			return nil, fmt.Errorf("invalid locations %v: negative table count", locations)
+		}
 		for j := 0; j < locations[i]; j++ {
 			tableToSlice[j+sumTables] = i
 		}
 		sumTables += locations[i]
+	}
+	if sumTables == 0 {
+		return nil, fmt.Errorf("invalid locations %v: the rule has no table", locations)
 	}
 	return tableToSlice, nil
 }
@@ -184,7 +190,7 @@ func verifyMycatHashRuleSliceInfos(locations []int, slices []string, databases [
 
 func verifyDateDayRuleSliceInfos(dateRange []string, slices []string) error {
 	var subTableIndexs []int
-	if len(dateRange) != len(slices) {
+	if len(dateRange) != len(slices) || len(dateRange) == 0 {
 		return errors.ErrDateRangeCount
 	}
 	for i := 0; i < len(dateRange); i++ {
@@ -202,7 +208,7 @@ func verifyDateDayRuleSliceInfos(dateRange []string, slices []string) error {
 
 func verifyDateMonthRuleSliceInfos(dateRange []string, slices []string) error {
 	var subTableIndexs []int
-	if len(dateRange) != len(slices) {
+	if len(dateRange) != len(slices) || len(dateRange) == 0 {
 		return errors.ErrDateRangeCount
 	}
 	for i := 0; i < len(dateRange); i++ {
@@ -220,7 +226,7 @@ func verifyDateMonthRuleSliceInfos(dateRange []string, slices []string) error {
 
 func verifyDateYearRuleSliceInfos(dateRange []string, slices []string) error {
 	var subTableIndexs []int
-	if len(dateRange) != len(slices) {
+	if len(dateRange) != len(slices) || len(dateRange) == 0 {
 		return errors.ErrDateRangeCount
 	}
 	for i := 0; i < len(dateRange); i++ {
